@@ -4,6 +4,11 @@ import common, zoo as zoolib, filelevel, workloads
 from common import Pair, proof_stage, rebuild_tools, build_pqh, build_zoo, Lock, TRUSTED_BASE
 
 MODULE = "PQ.Props.C18"
+# whole-file form (PQ/Lemmas/ForeignMut.lean): a file of the independent writer with ONE unsupported feature at any
+# row group / column / existing page is refused: the rows of earlier row groups are delivered, then an error
+EXTRA_MODULES = ["PQ.Lemmas.ForeignMut"]
+EXTRA_THEOREMS = ["PQ.readOutcome_specWrite_mutated", "PQ.readOutcome_specWrite_mutated_page0", "PQ.readOutcome_specWrite_codec",
+                  "PQ.readAll_specWrite_mutated", "PQ.readOutcome_of_entries", "PQ.next_true_err", "PQ.readAll_of_refused"]
 THEOREMS = ["PQ.C18." + t for t in ("checkPage_spec", "checked_page_total", "required_refuses", "optional_refuses", "codec_refused")]
 
 MUTS = ["dict", "index", "v2", "valenc:2", "valenc:3", "valenc:4", "valenc:5", "valenc:6", "valenc:7", "valenc:8", "valenc:9",
@@ -26,7 +31,7 @@ def run(chk):
         cov["steps"] = rebuild_tools(chk.log)
         cov["steps"]["zoo"] = build_zoo(chk.log)
         build_pqh(chk.log)
-        pr = proof_stage(chk, MODULE, THEOREMS)
+        pr = proof_stage(chk, MODULE, THEOREMS + EXTRA_THEOREMS, EXTRA_MODULES, audit_imports=EXTRA_MODULES)
     pair = Pair(chk.log)
     zs = filelevel.load_zoos(pair, workloads.ZOOS)
     rng = chk.rng
